@@ -23,6 +23,17 @@ type BuildSpec struct {
 		Rg int `json:"rg"`
 		Pg int `json:"pg"`
 	} `json:"cfg"`
+	// AutoLayout calls made earlier on the same builder (after N processes had been added)
+	Early []struct {
+		N int `json:"n"`
+		C struct {
+			Sx int `json:"sx"`
+			Sy int `json:"sy"`
+			Cg int `json:"cg"`
+			Rg int `json:"rg"`
+			Pg int `json:"pg"`
+		} `json:"c"`
+	} `json:"early"`
 	Procs []struct {
 		Acts []struct {
 			Type   string `json:"type"`
@@ -103,6 +114,11 @@ func BuildRun(run int, b BuildSpec) ValueResult {
 			pb.AddActivity(act)
 		}
 		db.AddProcess(*pb.Out())
+		for _, e := range b.Early {
+			if e.N == pi+1 {
+				db.AutoLayout(&schema.AutoLayoutConfig{StartX: float64(e.C.Sx), StartY: float64(e.C.Sy), ColumnGap: float64(e.C.Cg), RowGap: float64(e.C.Rg), ProcessGap: float64(e.C.Pg)})
+			}
+		}
 	}
 	cfg := &schema.AutoLayoutConfig{StartX: float64(b.Cfg.Sx), StartY: float64(b.Cfg.Sy), ColumnGap: float64(b.Cfg.Cg), RowGap: float64(b.Cfg.Rg), ProcessGap: float64(b.Cfg.Pg)}
 	db.AutoLayout(cfg)
